@@ -135,14 +135,24 @@ async function run_all(c) {
 // two readers alive at the same time, their chunks delivered alternately (one chunk per tick each): a reader's outcome must
 // not depend on the other one (state shared between iterators - a decoder, a buffer - shows here)
 function observe_pair(c) {
+    const {PassThrough} = require('stream');
+    const tick = () => new Promise((resolve) => setImmediate(resolve));
     return new Promise((resolve) => {
-        const sa = make_stream(c.pieces_a.map(p => Buffer.from(p)), 'from');
-        const sb = make_stream(c.pieces_b.map(p => Buffer.from(p)), 'from');
+        const sa = new PassThrough(), sb = new PassThrough();
         on_uncaught = (e) => {
             for (const s of [sa, sb]) { try { s.removeAllListeners('data'); s.removeAllListeners('end'); s.destroy(); } catch (e2) {} }
             const r = canon_error(e); r[1] = 'uncaught ' + r[1]; resolve([r, r]);
         };
-        Promise.all([observe_inner(sa, null, c), observe_inner(sb, null, c)]).then((r) => { on_uncaught = null; resolve(r); });
+        const pa = observe_inner(sa, null, c), pb = observe_inner(sb, null, c);
+        (async () => {
+            const A = c.pieces_a.map(p => Buffer.from(p)), B = c.pieces_b.map(p => Buffer.from(p));
+            for (let i = 0; i < Math.max(A.length, B.length); i++) {
+                if (i < A.length) { sa.write(A[i]); await tick(); }
+                if (i < B.length) { sb.write(B[i]); await tick(); }
+            }
+            sa.end(); sb.end();
+        })();
+        Promise.all([pa, pb]).then((r) => { on_uncaught = null; resolve(r); });
     });
 }
 
